@@ -4,7 +4,10 @@ from .util import fmt
 
 ID = "C22"
 RS = "breezy.revisionspec"
-FUNCTIONS = [RS + ":RevisionSpec.from_string", RS + ":RevisionSpec.in_history", RS + ":RevisionSpec_revno._lookup",
+BR = "breezy.branch"
+FUNCTIONS = [BR + ":Branch.dotted_revno_to_revision_id", BR + ":Branch._do_dotted_revno_to_revision_id",
+             BR + ":Branch.revision_id_to_dotted_revno", BR + ":Branch._do_revision_id_to_dotted_revno",
+             BR + ":Branch.get_revision_id_to_revno_map",RS + ":RevisionSpec.from_string", RS + ":RevisionSpec.in_history", RS + ":RevisionSpec_revno._lookup",
              RS + ":RevisionSpec_last._revno_and_revision_id", RS + ":RevisionSpec_before._match_on",
              RS + ":RevisionSpec_dwim._match_on", RS + ":RevisionInfo"]
 STUBS = ["branch = stub with a symbolic number of mainline revisions: last_revision_info(), get_rev_id(n) (null revision "
@@ -13,8 +16,8 @@ ASSUMPTIONS = ["the branch's left-hand history has `last` revisions numbered 1..
                "reference semantics from the specifier help texts: n >= 0 names revision n; -n names the n-th revision from "
                "the end, and the first revision when n exceeds the history; last:n = revision last-n+1 for n >= 1; "
                "before:X = the revision before X, an error for the null revision"]
-OUTSIDE = ["dotted revision number maps and merge-sorted numbering (vcsgraph, compiled) - only the parsing of dotted "
-           "specifiers and the hand-over of the tuple is checked", "revid:, tag:, ancestor:, mainline:, date: specifiers "
+OUTSIDE = ["merge-sorted numbering itself (vcsgraph, compiled): the revision-id -> dotted-revno map is an arbitrary "
+           "one-to-one map handed to the real Branch lookup code through _gen_revno_map","revid:, tag:, ancestor:, mainline:, date: specifiers "
            "(need a real branch / repository)", "specifiers with a branch location after ':'"]
 
 
@@ -130,6 +133,96 @@ def ob_dotted(cx):
     cx.cover("dotted")
 
 
+def ob_dotted_map(cx):
+    """revno:a.b.c through the real Branch.dotted_revno_to_revision_id / revision_id_to_dotted_revno over an arbitrary
+    (one-to-one) revision-id -> dotted-revno map: the specifier names exactly the revision carrying that number, the two
+    directions are inverse, anything else is rejected."""
+    R = cx.mod(RS)
+    B = cx.mod(BR)
+    E = cx.real("breezy.errors")
+    last = cx.choose("last", 0, cx.p("maplast"))
+    k = cx.choose("merged", 0, cx.p("merged"))
+    mx = cx.p("maxc")
+
+    def triple(tag):
+        # 0.x.y numbers belong to merged lines without a mainline ancestor (a second root)
+        return (cx.int(tag + "a", 0, mx), cx.int(tag + "b", 1, mx), cx.int(tag + "c", 1, mx))
+    ids = [b"merged-%d" % i for i in range(k)]
+    nums = []
+    for i in range(k):
+        t = triple("m%d" % i)
+        cx.assume(t[0] <= last)     # the first number is the mainline revno the merged line branched from (0: none)
+        for o in nums:
+            cx.assume(not (cx.truth(o[0] == t[0]) and cx.truth(o[1] == t[1]) and cx.truth(o[2] == t[2])))   # numbering is one-to-one
+        nums.append(t)
+    mapping = {}
+    for n in range(1, last + 1):
+        mapping[b"main-%d" % n] = (n,)
+    for i in range(k):
+        mapping[ids[i]] = nums[i]
+
+    class Stub(B.Branch):
+        def __init__(self):
+            self._revision_id_to_revno_cache = None
+            self._partial_revision_id_to_revno_cache = {}
+            self.gen = 0
+
+            class Repo:
+                has_revision = staticmethod(lambda rev_id: True)
+            self.repository = Repo
+
+        def lock_read(self):
+            import contextlib
+            return contextlib.nullcontext()
+
+        def revno(self):
+            return last
+
+        def last_revision_info(self):
+            return last, (b"main-%d" % last if last else b"null:")
+
+        def get_rev_id(self, revno, history=None):
+            if revno == 0:
+                return b"null:"
+            if revno < 0 or revno > last:
+                raise E.RevnoOutOfBounds(revno, (0, last))
+            return b"main-%d" % revno
+
+        def revision_id_to_revno(self, revision_id):
+            for n in range(1, last + 1):
+                if revision_id == b"main-%d" % n:
+                    return n
+            raise E.NoSuchRevision(self, revision_id)
+
+        def _gen_revno_map(self):
+            self.gen += 1
+            return dict(mapping)
+    b = Stub()
+    q = triple("q")
+    spec = fmt("revno:%d.%d.%d", q)
+    got = _resolve(cx, R, spec, b)
+    owners = [i for i in range(k) if cx.truth(nums[i][0] == q[0]) and cx.truth(nums[i][1] == q[1]) and cx.truth(nums[i][2] == q[2])]
+    if owners:
+        cx.require(got != "invalid", "the dotted revision number of an existing revision was rejected")
+        cx.require(got.rev_id == ids[owners[0]], "dotted specifier resolved to a different revision than the one carrying that number")
+        back = b.revision_id_to_dotted_revno(got.rev_id)
+        cx.require(len(back) == 3 and all(cx.truth(x == y) for x, y in zip(back, q)), "revision id -> dotted revno is not the inverse")
+        if cx.truth(q[0] == 0):
+            cx.cover("second_root")
+        cx.cover("found")
+    else:
+        cx.require(got == "invalid", "a dotted revision number nobody carries resolved to a revision")
+        cx.cover("absent")
+    for i in range(k):
+        back = b.revision_id_to_dotted_revno(ids[i])
+        cx.require(len(back) == 3 and all(cx.truth(x == y) for x, y in zip(back, nums[i])), "revision id -> dotted revno wrong")
+        cx.require(b.dotted_revno_to_revision_id(tuple(nums[i])) == ids[i], "dotted revno -> revision id is not the inverse")
+    for n in range(1, last + 1):
+        cx.require(b.revision_id_to_dotted_revno(b"main-%d" % n) == (n,), "mainline revision has a wrong dotted revno")
+        cx.require(b.dotted_revno_to_revision_id((n,)) == b"main-%d" % n, "mainline dotted revno resolves wrongly")
+    cx.observe("got", "invalid" if got == "invalid" else got.rev_id)
+
+
 def _ref_parse(cx, tail):
     """Reference reading of the text after 'revno:' -> ('int', n) | ('dotted', tuple) | None (invalid)."""
     def as_int(s):
@@ -181,9 +274,14 @@ def ob_garbage(cx):
 
 def obligations(tier):
     q = tier == "quick"
-    p = dict(maxlast=20 if q else 120, maxn=30 if q else 150, ltail=3 if q else 4)
+    p = dict(maxlast=20 if q else 120, maxn=30 if q else 150, ltail=3 if q else 4, maplast=2 if q else 3,
+             merged=2 if q else 3, maxc=9 if q else 99)
     to = 900 if q else 7200
     return [
+        Ob("dotted_map", ob_dotted_map, [RS, BR], p, to, 2 if q else 1, ["found", "absent", "second_root"],
+           bounds="branch with 0..%(maplast)d mainline revisions and <= %(merged)d merged revisions carrying arbitrary distinct "
+                  "dotted numbers a.b.c (a 0..number of mainline revisions, 0 = second root; b, c 1..%(maxc)d); query "
+                  "revno:a.b.c arbitrary with a 0..%(maxc)d" % p),
         Ob("numeric_specifiers", ob_numeric, [RS], p, to, 1, ["negative", "last", "before", "rejected", "resolved"],
            bounds="branch with 0..%(maxlast)d revisions, n in -%(maxn)d..%(maxn)d, forms revno:n / n / last:n / before:n / "
                   "before:revno:n" % p),
